@@ -172,6 +172,8 @@ def coq_eval(cfg, cases, workdir, tag="gen"):
             f.write("Definition M := Eval vm_compute in %s cases.\nPrint M.\n" % cfg["verdicts"])
             if cfg.get("scope"):
                 f.write("Definition SC := Eval vm_compute in N.of_nat (length (filter %s cases)).\nPrint SC.\n" % cfg["scope"])
+            if cfg.get("thm_scope"):
+                f.write("Definition TSC := Eval vm_compute in N.of_nat (length (filter %s cases)).\nPrint TSC.\n" % cfg["thm_scope"])
         try:
             rc, out = sh(["coqc", "-Q", COQ, "BV", path], cwd=workdir, timeout=1800)
         except subprocess.TimeoutExpired:
@@ -185,9 +187,12 @@ def coq_eval(cfg, cases, workdir, tag="gen"):
         res = {}
         for a, b in re.findall(r"\((\d+),(\d+)\)", body):
             res[int(a)] = int(b)
-        ms = re.search(r"SC\s*=\s*(\d+)", out)
+        ms = re.search(r"(?<![A-Z])SC\s*=\s*(\d+)", out)
         if ms:
             res["scope"] = int(ms.group(1))
+        ms = re.search(r"TSC\s*=\s*(\d+)", out)
+        if ms:
+            res["thm_scope"] = int(ms.group(1))
         for ext in (".vo", ".vok", ".vos", ".glob"):
             try:
                 os.remove(os.path.join(workdir, name + ext))
@@ -205,8 +210,8 @@ def coq_eval(cfg, cases, workdir, tag="gen"):
                 errors.append(err)
                 continue
             for local, code in res.items():
-                if local == "scope":
-                    results["scope"] = results.get("scope", 0) + code
+                if local in ("scope", "thm_scope"):
+                    results[local] = results.get(local, 0) + code
                 else:
                     results[offsets[k] + local] = code
     return results, errors
